@@ -20,6 +20,7 @@ sys.path.insert(0, os.path.dirname(os.path.abspath(__file__)))
 import gen  # noqa: E402
 import lib  # noqa: E402
 
+DEBUG_ROWS = []
 K_TOL = 60.0   # "fixed modest multiple" of atol + rtol*|u| (worst ratio observed on the unchanged tree is recorded in the evidence)
 
 
@@ -258,11 +259,22 @@ def main():
             tol = info["tol"]
             a = c["adaptive"]
             ratio_here = 0.0
+            norm_here = 0.0
+            nonfinite = False
+            qq = c["q"]
             for ti, t in enumerate(r["t"]):
                 sol = [info.get("scale", 1.0) * w for w in p["sol"](t, r["t"][0])]
                 got = u_of(r, c, ti)
                 for g, w in zip(got, sol):
-                    ratio_here = max(ratio_here, abs(g - w) / (a["atol"] + a["rtol"] * abs(w)))
+                    if not math.isfinite(g):
+                        nonfinite = True
+                        continue
+                    tol_pt = a["atol"] + a["rtol"] * abs(w)
+                    ratio_here = max(ratio_here, abs(g - w) / tol_pt)
+                    norm_here = max(norm_here, abs(g - w) / (max(abs(w), 1e-300) * (tol_pt / max(abs(w), 1e-300)) ** (qq / (qq + 1.0))))
+            DEBUG_ROWS.append({"what": what, "name": info["name"], "q": qq, "atol": a["atol"], "rtol": a["rtol"], "scale": info.get("scale", 1.0),
+                               "ratio": ratio_here, "norm": norm_here, "nonfinite": nonfinite, "kind": c["kind"], "calib": c["calib"],
+                               "strat": c["strat"], "lin": c["lin"], "out_scale": r.get("output_scale")})
             if what == "tol":
                 worst_ratio = max(worst_ratio, ratio_here)
             if not ratio_here <= K_TOL:
@@ -283,6 +295,9 @@ def main():
                 if order < q + 1 - 1.6:
                     ck.report(f"C01.order.{k2[1]}.{k2[3]}.{k2[4]}.{k2[5]}", f"{k2}: observed order {order:.2f} under grid halving, expected about q+1 = {q + 1}",
                               {"case": d[1][1], "errors": [e1, e2]})
+    if os.environ.get("C01_DEBUG"):
+        with open(os.environ["C01_DEBUG"], "w") as f_:
+            json.dump(DEBUG_ROWS, f_, default=str)
     ck.hist["worst_error_over_tolerance"] = {"value": worst_ratio}
     ck.hist["observed_order_minus_(q+1)"] = {"values": order_seen}
     if not pr["ok"] and not ck.violations:
